@@ -15,6 +15,7 @@
 #include <string.h>
 #include <unistd.h>
 #include <pthread.h>
+#include <signal.h>
 #include <sched.h>
 #include <stdatomic.h>
 #include <time.h>
@@ -91,8 +92,10 @@ static int storm(int nthr){
   return n; }
 // ---- quiet registration
 static atomic_long q_last_leave_started; static atomic_int q_ran; static int q_k; static atomic_int q_left;
-static void q_note(void *c){ (void)c; if(atomic_fetch_add(&q_ran,1)) fail("notify block ran more than once (quiet scenario)",0,0,0);
-  if(atomic_load(&q_left) < q_k) fail("notify block started before every enter that preceded its registration had been left (quiet registration): left/needed",atomic_load(&q_left),q_k,0); }
+// the check comes first: the main thread starts the next round (and rewrites q_k / q_left) as soon as q_ran is set
+static void q_note(void *c){ (void)c;
+  if(atomic_load(&q_left) < q_k) fail("notify block started before every enter that preceded its registration had been left (quiet registration): left/needed",atomic_load(&q_left),q_k,0);
+  if(atomic_fetch_add(&q_ran,1)) fail("notify block ran more than once (quiet scenario)",0,0,0); }
 static void *q_leaver(void *a){ (void)a; if(rnd()%2) usleep(rnd()%300); atomic_fetch_add(&q_left,1); dispatch_group_leave(G); return NULL; }
 static int quiet(int rounds){ G=dispatch_group_create(); cq=dispatch_queue_create("c",DISPATCH_QUEUE_CONCURRENT);
   _dispatch_verif_yield_cb = ycb; _dispatch_verif_atomic_cb = cb;
@@ -120,22 +123,31 @@ static int reenter(int rounds){ G=dispatch_group_create();
     for(int i=0;i<nw;i++) pthread_join(th[i],0); }
   _dispatch_verif_atomic_cb = 0; _dispatch_verif_yield_cb = 0; return rounds; }
 // ---- waiters with and without timeout on the same generation: the ones whose timeout expires must not take the others' wake-up away
-static atomic_int mx_forever_ret, mx_timed_ret;
+static atomic_int mx_forever_ret, mx_timed_ret, mx_release; static atomic_long mx_pings;
+static void on_usr1(int sig){ (void)sig; }
 static void *mx_forever(void *a){ (void)a; long r=dispatch_group_wait(G,DISPATCH_TIME_FOREVER); if(r) fail("dispatch_group_wait(FOREVER) returned non-zero",r,0,0); atomic_fetch_add(&mx_forever_ret,1); return NULL; }
 static void *mx_timed(void *a){ uint64_t to=(uint64_t)(uintptr_t)a; uint64_t t0=now_ns(); long r=dispatch_group_wait(G,dispatch_time(DISPATCH_TIME_NOW,(int64_t)to)); uint64_t t1=now_ns();
-  if(r && t1-t0<to) fail("dispatch_group_wait returned non-zero before its timeout elapsed: ns early",(long)(to-(t1-t0)),0,0); atomic_fetch_add(&mx_timed_ret,1); return NULL; }
+  if(r && t1-t0<to) fail("dispatch_group_wait returned non-zero before its timeout elapsed: ns early",(long)(to-(t1-t0)),0,0); atomic_fetch_add(&mx_timed_ret,1);
+  while(!atomic_load(&mx_release)) usleep(100);   // stay alive while the main thread may still signal this thread
+  return NULL; }
 static int mixed(int rounds){ G=dispatch_group_create();
   _dispatch_verif_yield_cb = ycb; _dispatch_verif_atomic_cb = cb;
-  for(int r=0;r<rounds && !viol;r++){ atomic_store(&mx_forever_ret,0); atomic_store(&mx_timed_ret,0); dispatch_group_enter(G);
+  // signals with a handler interrupt the blocked waiters: an interrupted wait is neither a timeout nor a wake-up
+  struct sigaction sa; memset(&sa,0,sizeof sa); sa.sa_handler=on_usr1; sigaction(SIGUSR1,&sa,0);
+  for(int r=0;r<rounds && !viol;r++){ atomic_store(&mx_forever_ret,0); atomic_store(&mx_timed_ret,0); atomic_store(&mx_release,0); dispatch_group_enter(G);
     int nf=1+(int)(rnd()%3), nt=1+(int)(rnd()%3); pthread_t tf[4], tt[4];
     for(int i=0;i<nf;i++) pthread_create(&tf[i],0,mx_forever,0);
     for(int i=0;i<nt;i++) pthread_create(&tt[i],0,mx_timed,(void*)(uintptr_t)(500000+rnd()%2500000));   // 0.5 - 3 ms
-    for(int w=0; w<4000 && atomic_load(&mx_timed_ret)<nt; w++) usleep(500);                                // every timed waiter has timed out
+    for(int w=0; w<4000 && atomic_load(&mx_timed_ret)<nt; w++){                                            // every timed waiter has timed out
+      if(r%2){ for(int i=0;i<nt;i++) pthread_kill(tt[i],SIGUSR1); for(int i=0;i<nf;i++) pthread_kill(tf[i],SIGUSR1); atomic_fetch_add(&mx_pings,1); }
+      usleep(r%2 ? 200 : 500); }
     if(rnd()%2) usleep(rnd()%1000);
     dispatch_group_leave(G);                                                                               // the count reaches zero
     int ok=0; for(int w=0; w<5000; w++){ if(atomic_load(&mx_forever_ret)==nf){ ok=1; break; } usleep(1000); }
-    if(!ok){ fail("a thread blocked in dispatch_group_wait(FOREVER) was left behind although the count reached zero (other waiters of the same generation had timed out before): round/forever/timed",r,nf,nt); break; }
+    if(!ok){ fail("a thread blocked in dispatch_group_wait(FOREVER) was left behind although the count reached zero (other waiters of the same generation had timed out before): round/forever/timed",r,nf,nt); atomic_store(&mx_release,1); break; }
+    atomic_store(&mx_release,1);
     for(int i=0;i<nf;i++) pthread_join(tf[i],0); for(int i=0;i<nt;i++) pthread_join(tt[i],0); }
+  printf("NOTE mixed: signal rounds sent %ld pings\n", atomic_load(&mx_pings));
   _dispatch_verif_atomic_cb = 0; _dispatch_verif_yield_cb = 0; return rounds; }
 // ---- forced F9 schedule
 static atomic_int in_window, go_on, ran1, ran2; static __thread int is_b;
